@@ -3,6 +3,7 @@ CONSTANTS
   W = 10
   MaxDepth = 1
   Bound = 4096
+  Dense = FALSE
 VIEW View
 INVARIANT Exactness
 INVARIANT StepOK
